@@ -1,4 +1,5 @@
 """C13 - turmoil-net connections open, close and are reclaimed like TCP."""
+import json
 import fam_nettcp as F
 from pipeline import PropSpec
 from C16 import stream_addrs
@@ -137,6 +138,12 @@ def c13_oracle(case, obs):
                 out.append(("step %d: accepted connection %s -> %s matches no SYN that was ever sent" % (i, frm, loc), None))
     for s, (loc, peer) in addrs.items():
         pass
+    # --- a free ephemeral port is found as long as one exists (scripts hold far fewer than 16384 sockets) ---
+    for i, (c, o) in enumerate(zip(script, ob)):
+        auto = (c[0] == "connect") or (c[0] in ("listen", "udp_bind") and c[4] == 0) or c[0] == "udp_send"
+        if auto and o.get("r") == "AddrInUse" and not (c[0] in ("listen", "udp_bind") and c[4] != 0):
+            out.append(("step %d: %s needed an ephemeral port and failed with AddrInUse although the script holds only a handful "
+                        "of sockets (the 16384-port range cannot be exhausted)" % (i, json.dumps(c)), None))
     # --- wake-up delivery: a task parked in accept() is woken once a connection sits in the ready queue ---
     parked = {}        # task -> (step of its pending accept_w, listener slot)
     lports = {}        # listener slot -> (host, port)
@@ -215,6 +222,21 @@ def fin_below_rcv_nxt(case, obs, r):
     return None
 
 
+def rst_delivered(case, obs, r):
+    """A RST of the peer was delivered to this socket: a correct receiver tears the connection down, so a leftover
+    that got one is not the OrphanLinger class (which is about a RST that was lost)."""
+    t = r["tcb"]
+    if not t or not r.get("local"):
+        return None
+    loc, peer = tuple(r["local"]), tuple(t["peer"])
+    for i, (c, o) in enumerate(zip(case["script"], obs["obs"])):
+        pk = [o["p"]] if c[0] in ("deliver", "dup") and o.get("r") == "ok" else (o["pk"] if c[0] == "flush" else [])
+        for p in pk:
+            if p[0] == 0 and p[7] & F.F_RST and (p[2], p[4]) == loc and (p[1], p[3]) == peer:
+                return i
+    return None
+
+
 def reclaimed(case, obs, plan):
     out = []
     script, ob = case["script"], obs["obs"]
@@ -239,13 +261,17 @@ def reclaimed(case, obs, plan):
             leftovers = [r for r in rs]
             past = [(r["fd"], fin_below_rcv_nxt(case, obs, r)) for r in leftovers]
             past = [(fd, j) for (fd, j) in past if j is not None]
-            if leftovers and all(orphan_linger(r) for r in leftovers) and not past:
+            rsts = [(r["fd"], rst_delivered(case, obs, r)) for r in leftovers]
+            rsts = [(fd, j) for (fd, j) in rsts if j is not None]
+            if leftovers and all(orphan_linger(r) for r in leftovers) and not past and not rsts:
                 klass = "OrphanLinger"
             out.append(("step %d: after both sides dropped everything and %d quiet rounds host %d still holds %s "
                         "(sockets, binding keys, bound fds, 4-tuples); leftovers: %s%s"
                         % (i, 1, h, cnt, [(r["fd"], r["fd_closed"], r["tcb"] and r["tcb"]["state"]) for r in leftovers],
                            "".join("; the peer's FIN delivered at step %d lies below rcv_nxt of fd %d but was never taken" % (j, fd)
-                                   for (fd, j) in past)), klass))
+                                   for (fd, j) in past)
+                           + "".join("; the peer's RST was delivered to fd %d at step %d and the socket is still there" % (fd, j)
+                                     for (fd, j) in rsts)), klass))
     # the port can be bound again
     for i, (c, o) in enumerate(zip(script, ob)):
         if c[0] == "listen" and c[1] == plan["final_listen"] and o.get("r") != "ok":
@@ -289,7 +315,8 @@ class Spec(PropSpec):
             "is lost and the client does not speak first (accept must still hand the connection out, once); exactly the first "
             "SYN / the first SYN-ACK is lost, then data, close, quiet rounds, table probes and re-bind; 'accept_wakers': several "
             "simulated tasks (own wakers) park in accept() on one listener, the earlier ones abandon it, then connections "
-            "arrive - the live acceptor's waker must be woken. Non-trivial = at least two of "
+            "arrive - the live acceptor's waker must be woken; 'port_wrap': the ephemeral scan wraps with the top (or the first) ports "
+            "occupied (cursor hook); 'rst_after_lost_data': a delivered RST ahead of rcv_nxt must tear the lingering peer down. Non-trivial = at least two of "
             "{connect ok, refused, timed out, accept, cancel} occurred; distinct = distinct (cfg, script)")
     assumptions = [
         "c13_index_coherent quantifies over every syscall sequence with arbitrary arguments and every inbound packet sequence (kreach)",
@@ -307,7 +334,7 @@ class Spec(PropSpec):
         n = 400 if ctx.tier == "quick" else 3000
         if ctx.escalate:
             n *= 2
-        cases = F.handshake_ack_lost_cases() + F.hs_retx_cases() + F.accept_waker_cases()
+        cases = F.handshake_ack_lost_cases() + F.hs_retx_cases() + F.accept_waker_cases() + F.port_wrap_cases() + F.rst_after_lost_data_cases()
         for i in range(n):
             r = i % 10
             if r < 7:
